@@ -418,11 +418,12 @@ class GroupBy:
         """
         return self.count_ikey()
 
-    @cached_property
+    @property
     def key_count(self):
         """
         Count of observations for each group as a Series indexed by the unique labels
         """
+        # a new Series per access: the caller may edit what it gets in place
         return pd.Series(self.ikey_count, self.result_index)
 
     @staticmethod
